@@ -868,4 +868,50 @@ pub fn phantom_weight_scenario(delay_ms: u64) -> Option<Failure> {
     None
 }
 
+/// Volume scenario for the statistics (C16): `n` keys with a TTL and `n` without are put (unawaited, the last
+/// acknowledgement awaited), then the clock jumps past every deadline and at the same moment all plain keys are deleted
+/// (unawaited): the sweeper and the command worker remove keys and release weight at the same time, each bumping the same
+/// counters. At quiescence, after every shard was swept twice, the cache must be empty and the counters exact.
+pub fn stats_stress_scenario(n: u64, shards: usize) -> Option<Failure> {
+    use tinylfu_cached::cache::stats::StatsType;
+    let cfg = Cfg { counters: 1000, capacity: 1 << 16, max_weight: i64::MAX / 4, shards, cmd_buf: 4096, pool: 1, buf: 64, tick_us: 200, hash: HashMode::Identity, weight_mode: WeightMode::Table(vec![8]), start_ns: 0, noise_readers: 0, prelude: None };
+    let inst = Instance::new();
+    let start = BASE_SECS * 1_000_000_000;
+    let clock = HClock::new(start);
+    let cache = Arc::new(crate::seq::build_cache(&cfg, &clock, &inst));
+    verif::install(None);
+    let mut last = None;
+    for key in 0..n {
+        last = cache.put_with_weight_and_ttl(key, key, 3 + (key % 5) as i64, Duration::from_millis(200 + (key % (shards as u64 * 1000)))).ok();
+        last = cache.put_with_weight(n + key, key, 2 + (key % 7) as i64).ok().or(last);
+    }
+    let last = last?;
+    await_ack(&last, &inst).ok()?;
+    let weight_before = cache.total_weight_used();
+    // every TTL key expires now; the sweeper collects one shard per second of clock time, the client deletes meanwhile
+    let deleter_cache = cache.clone();
+    let deleter_inst = inst.clone();
+    let deleter = std::thread::spawn(move || {
+        let mut last = None;
+        for key in 0..n { last = deleter_cache.delete(n + key).ok().or(last); }
+        if let Some(ack) = last { let _ = await_ack(&ack, &deleter_inst); }
+    });
+    for step in 1..=(2 * shards as u64 + 2) {
+        clock.set(start + (shards as u64 + 1) * 1_000_000_000 + step * 1_000_000_000);
+        let started = inst.sweeps_started.load(Ordering::Acquire);
+        let _ = wait_for(&inst, || if inst.sweeps_completed.load(Ordering::Acquire) >= started + 2 { Some(()) } else { None });
+    }
+    let _ = deleter.join();
+    let summary = cache.stats_summary();
+    let get = |stats_type: StatsType| summary.get(&stats_type).unwrap_or(0);
+    let held = cache.verif_snapshot().store.len() as u64;
+    let used = cache.total_weight_used();
+    let (added, deleted, weight_added, weight_removed) = (get(StatsType::KeysAdded), get(StatsType::KeysDeleted), get(StatsType::WeightAdded), get(StatsType::WeightRemoved));
+    cache.shutdown();
+    if added != 2 * n || added.wrapping_sub(deleted) != held || weight_added.wrapping_sub(weight_removed) != used as u64 {
+        return Some(Failure::new("C16", "C16/conc/volume", format!("{} TTL keys and {} plain keys were put (weight {} in use), then all of them expired or were deleted at the same time: KeysAdded {} KeysDeleted {} keys held {}; WeightAdded {} WeightRemoved {} weight in use {}: the counters are not exact at quiescence", n, n, weight_before, added, deleted, held, weight_added, weight_removed, used)));
+    }
+    None
+}
+
 include!("conc_check.rs");
